@@ -288,7 +288,7 @@ func runC06(r *mon.Run) {
 			}
 			for _, b := range [][]byte{c, u, xb} {
 				for j := range b {
-					b[j] ^= 0x5a
+					b[j] += 0x5b
 				}
 			}
 		}
